@@ -1039,9 +1039,38 @@ func (it *Interp) stdlib(fr *Frame, x *ssa.Call, fn *ssa.Function, args []Value)
 					}
 					it.pendingBinds = binds
 					r := it.callFn(callee, nil, false)
+					stale := func(hr HashRef) {
+						hr.H.Pending = []Seg{{Name: "state left in the pool by a previous user", Len: SymInt("len(pooled-state)", bigZero, big.NewInt(math.MaxInt64))}}
+					}
 					if ifc, isI := r.(Iface); isI {
 						if hr, isH := ifc.Dyn.(HashRef); isH {
-							hr.H.Pending = []Seg{{Name: "state left in the pool by a previous user", Len: SymInt("len(pooled-state)", bigZero, big.NewInt(math.MaxInt64))}}
+							stale(hr)
+						}
+						if pr, isP := ifc.Dyn.(Ptr); isP {
+							// a pooled structure: whatever a previous user left in it.  Hash states hold unknown input until
+							// reset; every other field holds an unknown value until it is written
+							var walk func(c *Cell)
+							walk = func(c *Cell) {
+								if len(c.Kids) > 0 {
+									c.Rep = nil
+									for _, k := range c.Kids {
+										walk(k)
+									}
+									return
+								}
+								if ic, isIc := c.Val.(Iface); isIc {
+									if hr, isH := ic.Dyn.(HashRef); isH {
+										stale(hr)
+										return
+									}
+								}
+								switch c.Val.(type) {
+								case FuncV, ClosureV:
+									return
+								}
+								it.storeValue(c, Top{Why: "state left in the pooled object by a previous user"})
+							}
+							walk(pr.C)
 						}
 					}
 					return r
@@ -1049,6 +1078,15 @@ func (it *Interp) stdlib(fr *Frame, x *ssa.Call, fn *ssa.Function, args []Value)
 			}
 		}
 	case "sync.Pool.Put":
+		// a nil pointer put into the pool comes back from a later Get and is dereferenced there
+		if len(args) >= 2 {
+			v := args[1]
+			if ifc, isI := v.(Iface); isI {
+				if _, isNil := ifc.Dyn.(Nil); isNil {
+					it.event("pool-nil", fr.fn, x.Pos(), "a nil pointer is put into the sync.Pool: the next Get hands it out and the function that takes it dereferences nil")
+				}
+			}
+		}
 		return nil
 	case "bytes.Join", "slices.Concat":
 		// concatenation of byte strings (bytes.Join with an empty separator)
@@ -1200,6 +1238,9 @@ func (it *Interp) stdlib(fr *Frame, x *ssa.Call, fn *ssa.Function, args []Value)
 		}
 		if s, ok := it.asSlice(args[1]); ok {
 			if l, isC := it.ApplyTerm(s.Len).IsConst(); isC {
+				if it.Cfg.LoopUnroll > 0 {
+					it.ReadStates = append(it.ReadStates, ReadState{Site: x, Lines: it.stateDigest(0), Shifted: it.stateDigest(1)})
+				}
 				if it.Cfg.LoopUnroll > 0 && it.nreads > it.Cfg.LoopUnroll {
 					it.abortf("loop-cap: more than %d entropy reads on one path", it.Cfg.LoopUnroll+1)
 				}
